@@ -248,19 +248,22 @@ func readOnlyInput(sp *dspace.Spaces, i int64, w *enum.Worker) {
 		}()
 		f()
 	}
-	for k := 0; k < 4; k++ {
-		o := gopacket.DecodeOptions{NoCopy: true, Lazy: k&1 != 0, DecodeStreamsAsDatagrams: k&2 != 0}
+	// with panic recovery on, a fault raised inside a decoder would be swallowed by the packet's
+	// own recover and turned into a DecodeFailure layer: every configuration therefore also
+	// runs with SkipDecodeRecovery, where the fault reaches the monitor
+	for k := 0; k < 8; k++ {
+		o := gopacket.DecodeOptions{NoCopy: true, Lazy: k&1 != 0, DecodeStreamsAsDatagrams: k&2 != 0, SkipDecodeRecovery: k&4 != 0}
 		var p gopacket.Packet
 		run("NewPacket(NoCopy)", func() { p = gopacket.NewPacket(in, c.First.Dec, o); p.Layers() })
-		if p == nil {
-			continue
+		w.Count("readonly_runs", 1)
+		if p == nil || o.SkipDecodeRecovery {
+			continue // the accessors were run on the same layers in the recovery-on configuration
 		}
 		run("SetNetworkLayerForChecksum", func() { attach(p) })
 		for _, a := range accessors {
 			a := a
 			run(a.name, func() { a.f(p) })
 		}
-		w.Count("readonly_runs", 1)
 	}
 	runtime.KeepAlive(in)
 }
